@@ -1523,6 +1523,15 @@ fn step<P: HP>(st: &mut St<P>, line: &str) -> String {
                 fb(itm.next().is_none())
             )
         }
+        // equality of sets: `S` against the set of `A`'s / `B`'s keys, both ways round
+        ["seteq", "S", rb] => {
+            let other: PrefixSet<P> = match *rb {
+                "A" => st.a.keys().cloned().collect(),
+                "B" => st.b.keys().cloned().collect(),
+                _ => return "bad-op".into(),
+            };
+            format!("{},{}", fb(st.s == other), fb(other == st.s))
+        }
         ["copy", ra, rb] => {
             let src = match *ra {
                 "A" => st.a.clone(),
